@@ -827,3 +827,16 @@ Theorem C01_vec_surjective : forall (A : Type) (v : tensor A) (s : list nat),
   shape v = [prod s] -> exists t, vec_to_tensor v s = Ok t /\ tensor_to_vec t = Ok v.
 Proof. exact @vec_surjective. Qed.
 Print Assumptions C01_vec_surjective.
+
+(* the backend primitives (model of np.transpose / np.moveaxis) are injective on the tensors whose axes they accept *)
+Theorem C01_transpose_injective : forall (A : Type) (d : A) (t t' : tensor A) (p : list nat),
+  wf t -> wf t' -> is_permb (ndim t) p = true -> is_permb (ndim t') p = true ->
+  transpose d p t = transpose d p t' -> t = t'.
+Proof. exact @transpose_injective. Qed.
+Print Assumptions C01_transpose_injective.
+
+Theorem C01_moveaxis_injective : forall (A : Type) (d : A) (t t' : tensor A) (a b : nat),
+  wf t -> wf t' -> a < ndim t -> b < ndim t -> a < ndim t' -> b < ndim t' ->
+  moveaxis d t a b = moveaxis d t' a b -> t = t'.
+Proof. exact @moveaxis_injective. Qed.
+Print Assumptions C01_moveaxis_injective.
